@@ -87,6 +87,22 @@ func dataSlice(fn *ssa.Function, v ssa.Value) map[ssa.Value]bool {
 				return
 			}
 		}
+		// the address of (a part of) a local allocation handed on as a value (a variadic argument list, a slice of a local
+		// array): whatever was stored there is part of the value
+		switch v.(type) {
+		case *ssa.Slice, *ssa.Alloc:
+			root, idx, path := rootOf(v)
+			if _, isAl := root.(*ssa.Alloc); isAl {
+				for _, i := range idx {
+					walk(i)
+				}
+				for _, st := range stores[root] {
+					if overlap(path, st.path) {
+						walk(st.val)
+					}
+				}
+			}
+		}
 		if ins, ok := v.(ssa.Instruction); ok {
 			for _, op := range ins.Operands(nil) {
 				if *op != nil {
